@@ -66,6 +66,19 @@ class FState:
         elif name == "Kgate":
             n = ad @ a
             G = 1j * p[0] * n @ n
+        elif name == "Vgate":
+            # documented: exp(i gamma x^3 / (3 hbar)), x = sqrt(hbar/2)(a + a^dag)  ->  gamma sqrt(hbar/2) / 6 * (a + a^dag)^3
+            hb = p[1] if len(p) > 1 else 2.0
+            X = a + ad
+            G = 1j * p[0] * math.sqrt(hb / 2.0) / 6.0 * X @ X @ X
+        elif name == "Pgate":
+            # documented: exp(i s x^2 / (2 hbar)) = exp(i s (a + a^dag)^2 / 4)
+            X = a + ad
+            G = 1j * p[0] / 4.0 * X @ X
+        elif name == "CKgate":
+            I = np.eye(D)
+            n = ad @ a
+            G = 1j * p[0] * np.kron(n, I) @ np.kron(I, n)
         elif name == "BSgate":
             th = p[0]
             ph = p[1] if len(p) > 1 else 0.0
@@ -119,6 +132,32 @@ class FState:
         c = np.array([(al ** n + np.exp(1j * th) * (-al) ** n) / math.sqrt(math.factorial(n)) for n in range(D)], dtype=complex)
         nrm = np.linalg.norm(c)
         return c / nrm
+
+    @staticmethod
+    def hermite_functions(kmax, x):
+        """Oscillator eigenfunctions phi_k(x), k < kmax, for x = a + a^dag (hbar = 2): phi_0 ~ exp(-x^2 / 4)."""
+        q = np.asarray(x, dtype=float) / math.sqrt(2.0)
+        out = np.zeros((kmax,) + q.shape)
+        out[0] = math.pi ** -0.25 * np.exp(-q * q / 2)
+        if kmax > 1:
+            out[1] = math.sqrt(2.0) * q * out[0]
+        for k in range(2, kmax):
+            out[k] = math.sqrt(2.0 / k) * q * out[k - 1] - math.sqrt((k - 1) / k) * out[k - 2]
+        return out
+
+    @staticmethod
+    def gkp_ket(theta, phi, eps, D, nmax=80):
+        """Finite-energy GKP state as documented: exp(-eps n) applied to cos(theta/2)|0> + e^{-i phi} sin(theta/2)|1>, with
+        |mu> = sum_n |x = (2n + mu) sqrt(pi hbar)> (position eigenkets); Fock amplitudes <k|x> are the oscillator eigenfunctions.
+        The dimensionless state does not depend on hbar (x / sqrt(hbar) is what enters)."""
+        ns = np.arange(-nmax, nmax + 1)
+        kets = []
+        for mu in (0, 1):
+            xs = (2 * ns + mu) * math.sqrt(2.0 * math.pi)  # positions in hbar = 2 units
+            c = FState.hermite_functions(D, xs).sum(axis=1) * np.exp(-eps * np.arange(D))
+            kets.append(c)
+        ket = math.cos(theta / 2) * kets[0] + np.exp(-1j * phi) * math.sin(theta / 2) * kets[1]
+        return (ket / np.linalg.norm(ket)).astype(complex)
 
     @staticmethod
     def fock_ket(n, D):
